@@ -72,3 +72,59 @@ Proof.
   destruct (hget s_key h) as [k|] eqn:Ek; cbn [negb]; [discriminate|].
   intro H; inversion H; subst. reflexivity.
 Qed.
+
+(* ---------- the RFC's reading: `Upgrade` / `Connection` are comma-separated token lists ---------- *)
+(* RFC 6455 section 4.2.1 asks for an Upgrade header field "containing the value websocket" and a
+   Connection header field "that includes the token Upgrade", both case-insensitively, and
+   Sec-WebSocket-Version 13. [has_token word v]: [word] is an element of the list [v] (elements are
+   separated by commas and optional SP / HTAB), compared case-insensitively. *)
+Definition is_delim (b : N) : bool := (b =? 44) || (b =? 32) || (b =? 9).
+Definition has_token (word v : bytes) : Prop :=
+  exists a t b, v = a ++ t ++ b /\ to_ascii_lowercase t = word /\
+    (a = [] \/ exists a' x, a = a' ++ [x] /\ is_delim x = true) /\
+    (b = [] \/ exists x b', b = x :: b' /\ is_delim x = true).
+
+Definition rfc_wellformed (method : bytes) (h : headers) : Prop :=
+  method = s_get /\
+  (exists v, hget s_upgrade h = Some v /\ forallb is_visible_ascii v = true /\ has_token s_websocket v) /\
+  (exists v, hget s_connection h = Some v /\ forallb is_visible_ascii v = true /\ has_token s_upgrade v) /\
+  hget s_version h = Some [49; 51] /\
+  (exists k, hget s_key h = Some k).
+
+Lemma is_prefix_app n b : is_prefix n (n ++ b) = true.
+Proof. induction n as [|x n IH]; cbn [is_prefix app]; [reflexivity|]. rewrite N.eqb_refl, IH. reflexivity. Qed.
+
+Lemma contains_app n : forall a b, contains n (a ++ n ++ b) = true.
+Proof.
+  induction a as [|x a IH]; intro b; cbn [app].
+  - destruct (n ++ b) eqn:E; cbn [contains]; rewrite <- ?E, is_prefix_app; reflexivity.
+  - cbn [contains]. rewrite IH. apply orb_true_r.
+Qed.
+
+Lemma has_token_contains word v : has_token word v -> contains word (to_ascii_lowercase v) = true.
+Proof.
+  intros (a & t & b & -> & <- & _). unfold to_ascii_lowercase. rewrite !map_app. apply contains_app.
+Qed.
+
+(* every request that is well-formed in the RFC's sense is accepted (completeness). The converse is
+   false of the code, which tests for a SUBSTRING: see [rfc_converse_witness]. *)
+Theorem rfc_wellformed_accepted method h : rfc_wellformed method h -> verify_handshake method h = None.
+Proof.
+  intros (Hm & (u & Hu & Hvu & Htu) & (c & Hc & Hvc & Htc) & Hv & Hk).
+  apply handshake_ok_iff. split; [exact Hm|]. split; [|split; [|split]].
+  - exists u. repeat split; try assumption. apply has_token_contains. exact Htu.
+  - exists c. repeat split; try assumption. apply has_token_contains. exact Htc.
+  - exists [49; 51]. split; [exact Hv|]. left. reflexivity.
+  - exact Hk.
+Qed.
+
+(* `Upgrade: xwebsocketx`, `Connection: upgraded`, version 8: accepted, not RFC-well-formed *)
+Definition lenient_request : headers :=
+  [(s_upgrade, [120] ++ s_websocket ++ [120]); (s_connection, s_upgrade ++ [100]);
+   (s_version, [56]); (s_key, [120])].
+Lemma rfc_converse_witness :
+  verify_handshake s_get lenient_request = None /\ ~ rfc_wellformed s_get lenient_request.
+Proof.
+  split; [vm_compute; reflexivity|].
+  intros (_ & _ & _ & Hv & _). vm_compute in Hv. discriminate.
+Qed.
